@@ -9,6 +9,7 @@ from hxv.ref import resample as rr
 from hxv.runner import Shard
 
 PROP = "C03"
+CASE_TIMEOUT = 2.0
 RULE = (
     "case = (timeframe unit x multiplier, stream of integer-grid OHLCV rows with generated timestamp "
     "pattern regular/jitter/gappy/burst and on/off-boundary start, preload count, append chunk sizes, "
